@@ -261,12 +261,14 @@ type Sink struct {
 	Err     error
 	Recover bool // after the failing write, later writes succeed again
 	Failed  bool
-	Retain  [][]byte // the p slices seen (headers only, to check they are not modified later by us)
+	// AcceptEighths >= 0 fixes the accepted prefix of the failing write to len(p)*n/8 (used
+	// by fault enumeration, where the tape of the fault-free execution has no value for it).
+	AcceptEighths int
 }
 
 // NewSink creates a sink.
 func NewSink(c *Ctx, name string) *Sink {
-	return &Sink{C: c, st: c.Tape.S("sink." + name), Name: name}
+	return &Sink{C: c, st: c.Tape.S("sink." + name), Name: name, AcceptEighths: -1}
 }
 
 // Write implements io.Writer.
@@ -278,7 +280,11 @@ func (k *Sink) Write(p []byte) (int, error) {
 	if fail {
 		m := 0
 		if len(p) > 0 {
-			m = k.st.Choose(len(p)) // strict prefix
+			if k.AcceptEighths >= 0 {
+				m = len(p) * (k.AcceptEighths % 8) / 8
+			} else {
+				m = k.st.Choose(len(p)) // strict prefix
+			}
 		}
 		k.Got = append(k.Got, p[:m]...)
 		k.Bounds = append(k.Bounds, len(k.Got))
